@@ -70,6 +70,11 @@ def check(ctx):
         ctx.check(g.guarded(r, lambda e: _test_is(e, "self._suppressAlreadyCalled"), True) and g.guarded(r, lambda e: _test_is(e, "self.called"), True),
                   "already-called/suppress-once", ctx.construct(q, g.node(r).ast),
                   "the suppression flag is reset outside the branch that consumes it")
+    for r in resets:
+        pth = g.path([r], [g.exit], edge_ok=lambda a, b, l: l != "exc")
+        ctx.check(pth is not None, "already-called/suppressed-result-ignored", ctx.construct(q, g.node(r).ast),
+                  "after consuming the one-shot suppression the late result is not silently ignored (no normal return: "
+                  "AlreadyCalledError is raised although cancel() without a canceller promised to swallow one result)")
     ctx.check(bool(resets), "already-called/suppress-once", q + " | reset of _suppressAlreadyCalled",
               "the one-shot suppression flag is never reset: every later result would be swallowed, not exactly one")
     # there must be a raise AlreadyCalledError reachable on the called branch
@@ -164,6 +169,14 @@ def check(ctx):
         ok = g.guarded(n, lambda e: _test_is(e, "self.called"), True) and g.guarded(n, lambda e: src(e).startswith("isinstance(self.result, Deferred"), True)
         ctx.check(ok, "cancel/forward-to-awaited", ctx.construct(q, g.node(n).ast),
                   "forwarding of cancel() is not confined to 'fired and result is a Deferred'")
+        # ... and it must happen WHENEVER the Deferred has fired and waits on another one: any further
+        # dominating condition (e.g. on the awaited Deferred's own state) drops cancellations that the
+        # awaited Deferred would itself forward down a longer chain.
+        extra = [(src(g.node(t).ast), lab) for t, lab in g.edge_guards(n)
+                 if not (_test_is(g.node(t).ast, "self.called") or src(g.node(t).ast).startswith("isinstance(self.result, "))]
+        ctx.check(not extra, "cancel/forward-unconditional", q + " | <forward to awaited Deferred>",
+                  "cancel() on a fired Deferred waiting on another Deferred is forwarded only under an extra condition "
+                  f"{extra}: a chain outer -> fired middle -> unfired leaf is no longer cancelled")
 
     # ---- callback / errback reach _startRunCallbacks on every path --------------------------------
     for name in ("callback", "errback"):
@@ -186,6 +199,15 @@ MUTANTS = [
     Mutant("keep-canceller-armed", DEFER, "        self._canceller = None\n\n        self.result = result\n", "        self.result = result\n"),
     Mutant("called-set-after-run", DEFER, "        self.called = True\n\n        # Clear the canceller", "        # Clear the canceller",
            more=[(DEFER, "        self.result = result\n        self._runCallbacks()\n", "        self.result = result\n        self._runCallbacks()\n        self.called = True\n")]),
+]
+MUTANTS += [
+    Mutant("suppressed-result-still-raises", DEFER, "                self._suppressAlreadyCalled = False\n                return\n",
+           "                self._suppressAlreadyCalled = False\n", expect_rule="already-called/suppressed-result-ignored"),
+    Mutant("forward-only-if-awaited-unfired", DEFER, "        elif isinstance(self.result, Deferred):\n            # Waiting for another deferred -- cancel it instead.\n",
+           "        elif isinstance(self.result, Deferred) and not self.result.called:\n            # Waiting for another deferred -- cancel it instead.\n", expect_rule="cancel/forward-unconditional"),
+    Mutant("swap-canceller-out-before-calling", DEFER, "            canceller = self._canceller\n            if canceller:\n",
+           "            canceller, self._canceller = self._canceller, None\n            if canceller:\n"),
+    Mutant("errback-not-reaching-start", DEFER, "        self._startRunCallbacks(fail)\n", "        if not self.called:\n            self._startRunCallbacks(fail)\n"),
 ]
 SILENT = [
     Silent("rename-local", DEFER, "            canceller = self._canceller\n            if canceller:\n                canceller(self)\n",
